@@ -297,7 +297,11 @@ func allOnes(proto message.Message) message.Message {
 }
 
 func (r *rngT) edge64() uint64 {
-	switch r.Intn(8) {
+	switch r.Intn(10) {
+	case 8:
+		return 0x8000000000000000 // float64 negative zero, int64 minimum (low half zero: float32 +0)
+	case 9:
+		return 0x80000000 // float32 negative zero, int32 minimum
 	case 0:
 		return 0
 	case 1:
